@@ -253,6 +253,56 @@ func runC12(c *Ctx) {
 			c.check(good && n > 0 && len(esc) > 0, "trim-agrees-with-scanner@TrimDot", td.Pos(), "the trailing dot is cut only when the scanner's escape predicate says it is a separator",
 				"TrimDot cuts a trailing dot that the label scanner treats as part of the last label ("+why+"): a rule or name whose last label ends in an escaped dot (com\\.) loses it in one place and keeps it in the other — domain:com\\. does not match a.com\\. nor its own fully-qualified spelling (D43)")
 		}
+		// universal form of the same: every '.' search reachable from Scan lives in a function that hands an index back
+		// only after the escape predicate said "not escaped" about that very index
+		{
+			esc2 := map[*ssa.Function]bool{}
+			for g := range seenFns {
+				eachInstr(g, func(in ssa.Instruction) {
+					if bo, ok := in.(*ssa.BinOp); ok && (bo.Op == token.EQL || bo.Op == token.NEQ) {
+						if n, isC := constInt(bo.Y); isC && n == '\\' {
+							esc2[g] = true
+						}
+					}
+				})
+			}
+			for g := range seenFns {
+				var search *ssa.Call
+				eachInstr(g, func(in ssa.Instruction) {
+					if ci, ok := in.(*ssa.Call); ok && callName(ci) == "strings.LastIndexByte" {
+						if n, ok := constInt(ci.Call.Args[1]); ok && n == '.' {
+							search = ci
+						}
+					}
+				})
+				if search == nil {
+					continue
+				}
+				why := ""
+				if g.Signature.Results().Len() != 1 || g.Signature.Results().At(0).Type().String() != "int" {
+					why = "the search result is used in place (" + funcName(g) + "), without asking whether the dot is escaped"
+				} else {
+					for _, r := range returnsOf(g) {
+						v := returnedValues(r)[0]
+						if _, isC := constInt(v); isC {
+							continue
+						}
+						asked := false
+						for _, gd := range guardsOfInstr(r) {
+							bv, truth := gd.asBool()
+							if cl, ok := bv.(*ssa.Call); ok && !truth && esc2[staticCallee(cl)] && len(cl.Call.Args) == 2 && cl.Call.Args[1] == v {
+								asked = true
+							}
+						}
+						if !asked {
+							why = "an index is returned at " + c.P.pos(instrPos(r)) + " without the escape predicate being asked about it"
+						}
+					}
+				}
+				c.check(why == "", "separator-search-escape-checked@"+funcName(g), g.Pos(), "every index handed back by the '.' search was tested by the escape predicate",
+					"the label separator search treats an escaped dot as a separator ("+why+"): a\\.example.com. matches domain:example.com (D18)")
+			}
+		}
 		c.check(escapeAware, "separator-unescaped@Scan", f.Pos(), "an escaped dot (part of a label) is not a separator",
 			"the label scanner splits at every '.', also at an escaped one: the name a\\.example.com. (labels \"a.example\", \"com\") matches the rule domain:example.com although it is no subdomain of it — a string suffix, not a label boundary")
 	}
